@@ -543,12 +543,20 @@ func (fr *frame) havocLoop(st *State, m *loopMods) {
 			continue
 		}
 		if !m.allocs {
-			// only the named locations can change: chain of stores
+			// of the objects that existed at function entry only the named locations can change: chain of stores
 			h := pre
 			for _, a := range allowed {
 				h = Store(h, a, Select(nh, a))
 			}
-			st.heap[c] = h
+			if st.allocArr() == alloc0 {
+				// nothing was allocated on this path before the loop: every object is an entry object
+				st.heap[c] = h
+				continue
+			}
+			// objects allocated by this function before the loop (fresh maps, slices, structs) are not
+			// bound by the modifies clause: the loop may change them freely
+			r := mkBVar(freshName("r"), SInt)
+			st.assume(Forall([]*Term{r}, Implies(Select(alloc0, r), Eq(Select(nh, r), Select(h, r)))))
 			continue
 		}
 		r := mkBVar(freshName("r"), SInt)
